@@ -3,8 +3,21 @@ package main
 import (
 	"fmt"
 
+	"github.com/shaardie/clemens/pkg/metadata"
 	"github.com/shaardie/clemens/pkg/uci"
 )
+
+// defBytes emits a string as a byte list (list N).
+func defBytes(name string, s string) {
+	fmt.Fprintf(&sb, "Definition %s : list N := [", name)
+	for j := 0; j < len(s); j++ {
+		if j > 0 {
+			sb.WriteString("; ")
+		}
+		fmt.Fprintf(&sb, "%d", s[j])
+	}
+	sb.WriteString("]%N.\n")
+}
 
 // defTokenList emits a list of strings as a list of byte lists (list (list N)).
 func defTokenList(name string, ss []string) {
@@ -44,5 +57,9 @@ func init() {
 	sections = append(sections, func() {
 		sb.WriteString("(* pkg/uci *)\n")
 		defTokenList("validFirstInputToken", uci.VerifValidFirstTokens())
+		sb.WriteString("(* pkg/metadata: the answer to `uci` *)\n")
+		defBytes("md_name", metadata.Name)
+		defBytes("md_version", metadata.Version)
+		defBytes("md_author", metadata.Author)
 	})
 }
